@@ -384,9 +384,11 @@ func (t *stdioClientTransport) handleResponse(rawMessage json.RawMessage) {
 		return
 	}
 
+	// The read lock is held until the (non-blocking) send is done: sendRequest and close() close
+	// the channel after removing it under the write lock; a send in between would panic.
 	t.pendingMutex.RLock()
+	defer t.pendingMutex.RUnlock()
 	respChan, exists := t.pendingRequests[reqID]
-	t.pendingMutex.RUnlock()
 
 	if !exists {
 		t.logger.Warnf("No pending request for ID: %d", reqID)
@@ -443,8 +445,8 @@ func (t *stdioClientTransport) handleErrorResponse(rawMessage json.RawMessage) {
 	}
 
 	t.pendingMutex.RLock()
+	defer t.pendingMutex.RUnlock()
 	respChan, exists := t.pendingRequests[reqID]
-	t.pendingMutex.RUnlock()
 
 	if !exists {
 		t.logger.Warnf("No pending request for error ID: %d", reqID)
